@@ -168,7 +168,7 @@ Proof.
   inversion Hf as [|? ? [k ->] Hf']; subst.
   destruct (IH (do_action p t e (AQuery k) s) Hf') as [A1 [A2 [A3 [A4 [A5 A6]]]]].
   rewrite A1, A2, A3, A4, A5, A6. cbn [do_action].
-  destruct (ids s); repeat split; reflexivity.
+  destruct (ids s) eqn:E; cbn [queue ids nextid clock out world emit taps filter is_tap]; rewrite ?E; repeat split; reflexivity.
 Qed.
 
 Section Sim.
@@ -235,3 +235,285 @@ Proof.
 Qed.
 
 End Sim.
+
+(* ------------------------------------------------------------------ times: not before the current event, at most one period ahead *)
+Section Time.
+Variable cfg : pcfg.
+Variable ub : Q -> Q.                      (* an upper bound of the rounding in setFiringTime *)
+Hypothesis ub_mono : forall x y, x <= y -> ub x <= ub y.
+Hypothesis period_nonneg : 0 <= pc_period cfg.
+Notation period := (pc_period cfg).
+
+Definition req_hi (r : req) : Prop := rq_kind r = RT -> rq_ans r <= ub (rq_arg r).
+Definition good (l : list req) : Prop := forall r, In r l -> req_lo r /\ req_hi r.
+
+Lemma good_app l1 l2 : good (l1 ++ l2) -> good l2.
+Proof. intros H r Hr. apply H, in_or_app. right. exact Hr. Qed.
+Lemma good_good_lo l : good l -> good_lo l.
+Proof. intros H r Hr. apply H, Hr. Qed.
+
+Definition tmI (t : Q) (H : list Z) (m : list (Z * (nat * Q))) : Prop :=
+  forall n k T, ev_look m n = Some (k, T) -> ~ In n H -> t <= T /\ T <= ub (t + period).
+
+Lemma tm_qstep t o st st' : qstep cfg t o st st' -> good (pw_reqs (fst st')) ->
+  forall H, tmI t H (pw_ev (fst st)) -> tmI t (holes_after (ocons o []) H) (pw_ev (fst st')).
+Proof.
+  intros [w w' a Hs|w a n arg c T w1 E H0 H1 Harg] Hg H Ht; cbn [fst snd ocons holes_after fold_left] in *.
+  - rewrite (ws_ev _ _ Hs). exact Ht.
+  - pose proof (ask_wsame _ _ _ _ _ _ E) as Hs. pose proof (ask_reqs _ _ _ _ _ _ E) as Hr.
+    destruct (Hg (mkreq RT t arg T)) as [Hlo Hhi]; [cbn [pw_reqs set_ev]; rewrite Hr; left; reflexivity|].
+    specialize (Hlo eq_refl). specialize (Hhi eq_refl). cbn in Hlo, Hhi.
+    rewrite set_ev_ev. intros n' k' T' Hn' Hnot. destruct (Z.eq_dec n' n) as [->|Hne].
+    + rewrite look_upd_same in Hn'. assert (HT' : T' = Qred (t + (T - t))) by congruence. rewrite HT'. clear HT' Hn'. split; [rewrite Qred_correct; lra|].
+      assert (Hle : arg <= t + period).
+      { rewrite Harg. assert (c * period <= 1 * period) by (apply Qmult_le_compat_r; assumption). lra. }
+      apply ub_mono in Hle. rewrite Qred_correct. lra.
+    + rewrite look_upd_other in Hn' by exact Hne. rewrite (ws_ev _ _ Hs) in Hn'.
+      apply (Ht n' k' T' Hn'). intros Hi. apply Hnot, in_in_remove; assumption.
+Qed.
+
+Lemma tm_qsteps t ns st st' : qsteps cfg t ns st st' -> good (pw_reqs (fst st')) ->
+  forall H, tmI t H (pw_ev (fst st)) -> tmI t (holes_after ns H) (pw_ev (fst st')).
+Proof.
+  induction 1 as [st|o st1 st2 st3 ns Hq Hs IH]; intros Hg H Ht; [exact Ht|].
+  destruct (proj1 (proj2 (proj2 (proj2 (proj2 (qsteps_keeps _ _ _ _ _ Hs)))))) as [l Hl].
+  assert (Hg2 : good (pw_reqs (fst st2))) by (rewrite Hl in Hg; eapply good_app; exact Hg).
+  replace (holes_after (ocons o ns) H) with (holes_after ns (holes_after (ocons o []) H)) by (destruct o; reflexivity).
+  apply IH; [exact Hg|]. eapply tm_qstep; eassumption.
+Qed.
+
+Lemma tm_psteps t ns st st' : psteps cfg t ns st st' -> good (pw_reqs (fst st')) ->
+  forall H, tmI t H (pw_ev (fst st)) -> tmI t (holes_after ns H) (pw_ev (fst st')).
+Proof.
+  induction 1 as [st|ns1 ns2 st1 st2 st3 Hp Hs IH]; intros Hg H Ht; [exact Ht|].
+  destruct (proj1 (proj2 (proj2 (psteps_keeps _ _ _ _ _ Hs)))) as [l Hl].
+  assert (Hg2 : good (pw_reqs (fst st2))) by (rewrite Hl in Hg; eapply good_app; exact Hg).
+  rewrite holes_after_app. apply IH; [exact Hg|].
+  destruct Hp as [ns0 sa sb Hq|w a bg bd]; [eapply tm_qsteps; eassumption|exact Ht].
+Qed.
+
+(* ------------------------------------------------------------------ the invariant at the points between events *)
+Definition lastT (w : pworld) : Q := match pw_ftimes w with [] => 0 | t :: _ => t end.
+
+(* newest first: each time is at least the one before it *)
+Fixpoint desc (l : list Q) : Prop :=
+  match l with
+  | [] => True
+  | a :: l' => match l' with [] => True | b :: _ => b <= a end /\ desc l'
+  end.
+
+Definition tap_of (p : Q * Z) : obs := OTap (fst p) 0 (NPost prog_fired) (EN (snd p)).
+
+Record PInv (s : kst) : Prop := {
+  pi_link : link [] (pw_ev (world s)) (pw_nposted (world s)) s;
+  pi_dom : forall n, In n (pc_nodes cfg) -> ev_look (pw_ev (world s)) n <> None;
+  pi_tm : tmI (lastT (world s)) [] (pw_ev (world s));
+  pi_sorted : desc (pw_ftimes (world s));
+  pi_len : length (pw_ftimes (world s)) = length (pw_fnodes (world s));
+  pi_taps : taps (out s) = map tap_of (combine (pw_ftimes (world s)) (pw_fnodes (world s))) }.
+
+Lemma PInv_ext s s' : world s' = world s -> queue s' = queue s -> ids s' = ids s -> nextid s' = nextid s ->
+  taps (out s') = taps (out s) -> PInv s -> PInv s'.
+Proof.
+  intros E1 E2 E3 E4 E5 [A1 A2 A3 A4 A5 A6]. split; rewrite ?E1, ?E5; try assumption.
+  eapply link_ext; eassumption.
+Qed.
+
+Lemma link_discard_dead m np (s s' : kst) f : queue s' = discard_dead f (queue s) -> ids s' = ids s -> nextid s' = nextid s ->
+  link [] m np s -> link [] m np s'.
+Proof.
+  intros E1 E2 E3 [A1 A2 A3 A4 A5 A6 A7]. split; rewrite ?E1, ?E2, ?E3; try assumption.
+  - apply discard_dead_NoDup, A2.
+  - intros x Hx. apply A3. eapply discard_dead_incl; exact Hx.
+  - intros n k T Hn Hnot. destruct (A5 n k T Hn Hnot) as [Hk Hin]. split; [exact Hk|].
+    apply discard_dead_keeps_live; [exact A2|exact Hin|reflexivity].
+  - intros n k T [].
+  - intros x Hx Hl. apply A7; [eapply discard_dead_incl; exact Hx|exact Hl].
+Qed.
+
+Lemma PInv_discard s : PInv s -> PInv (discard s).
+Proof.
+  intros [A1 A2 A3 A4 A5 A6]. split; cbn [world discard set_queue out]; try assumption.
+  eapply link_discard_dead; [| | |exact A1]; reflexivity.
+Qed.
+
+End Time.
+
+(* ------------------------------------------------------------------ one event, set-up, and the two scheduler loops *)
+Lemma do_action_world p t e a (s : kst) : world (do_action p t e a s) = world s.
+Proof.
+  destruct a; cbn [do_action]; try reflexivity; unfold post; try (destruct (Qltb _ _); reflexivity).
+  - destruct (ids s); [reflexivity|]. destruct (find_live _ _); reflexivity.
+  - destruct (ids s); reflexivity.
+Qed.
+Lemma run_actions_world p t e acts (s : kst) : world (run_actions p t e acts s) = world s.
+Proof.
+  unfold run_actions. revert s. induction acts as [|a acts IH]; intros s; cbn [fold_left]; [reflexivity|].
+  rewrite IH. apply do_action_world.
+Qed.
+
+Section Run.
+Variable cfg : pcfg.
+Variable ub : Q -> Q.
+Hypothesis ub_mono : forall x y, x <= y -> ub x <= ub y.
+Hypothesis period_nonneg : 0 <= pc_period cfg.
+Variable oracle : list (rkind * Q).
+Variable orders : list (list Z).
+Notation tb := (pulse_table cfg oracle orders).
+Notation period := (pc_period cfg).
+
+Lemma prog_of_pulse k : prog_of tb k = match k with O => fired_prog cfg | _ => static [] end.
+Proof. destruct k as [|[|k]]; reflexivity. Qed.
+
+Lemma fired_prog_reqs t e l w : exists lr, pw_reqs (fst (fired_prog cfg t e l w)) = lr ++ pw_reqs w.
+Proof.
+  destruct e as [n|a b]; [|exists []; reflexivity].
+  destruct (fired_prog cfg t (EN n) l w) as [w' acts] eqn:E.
+  destruct (fired_prog_spec cfg t n l w w' acts E) as [w1 [a1 [ns [acts0 [_ [P1 [P2 _]]]]]]].
+  destruct (proj1 (proj2 (proj2 (psteps_keeps _ _ _ _ _ P1)))) as [l1 H1].
+  destruct (proj1 (proj2 (proj2 (psteps_keeps _ _ _ _ _ P2)))) as [l2 H2].
+  cbn [fst snd pw_reqs add_log] in *. exists (l2 ++ l1). rewrite H2, H1, app_assoc. reflexivity.
+Qed.
+
+Lemma pend_step_reqs h (s0 : kst) : exists lr, pw_reqs (world (pend_step tb h s0)) = lr ++ pw_reqs (world s0).
+Proof.
+  unfold pend_step, fire. cbn [world emit].
+  set (s1 := emit _ (set_clock _ _)).
+  assert (H : exists lr, pw_reqs (world (run_prog tb (e_proc h) (e_prog h) (e_time h) (e_elem h) s1)) = lr ++ pw_reqs (world s0)).
+  { unfold run_prog. rewrite prog_of_pulse. destruct (e_prog h) as [|k].
+    - pose proof (fired_prog_reqs (e_time h) (e_elem h) (loci s1) (world s1)) as [lr Hlr].
+      destruct (fired_prog cfg (e_time h) (e_elem h) (loci s1) (world s1)) as [w' acts].
+      rewrite run_actions_world. cbn [world set_world fst] in *. exists lr. exact Hlr.
+    - cbn [static]. rewrite run_actions_world. exists []. reflexivity. }
+  destruct (e_rep h) as [ddt|]; [|exact H].
+  unfold post. destruct (Qltb _ _); cbn [world emit]; exact H.
+Qed.
+
+(* what one firing does *)
+Record fired_at (s0 s' : kst) (n : Z) (T : Q) : Prop := {
+  fa_ftimes : pw_ftimes (world s') = T :: pw_ftimes (world s0);
+  fa_fnodes : pw_fnodes (world s') = n :: pw_fnodes (world s0);
+  fa_clock : clock s' = T;
+  fa_tap : out s' = OTap T 0 (NPost prog_fired) (EN n) :: tl (out s');
+  (* the node is rescheduled at the oracle's rounding of T + clamp(round(1 - 0)) * period *)
+  fa_refire : exists r Tn k, In (mkreq RN T (Qred (1 - 0)) r) (pw_reqs (world s'))
+      /\ In (mkreq RT T (Qred (T + clamp01 r * period)) Tn) (pw_reqs (world s'))
+      /\ ev_look (pw_ev (world s')) n = Some (k, Qred (T + (Tn - T))) }.
+
+Lemma head_is_fentry (s0 : kst) h : PInv cfg ub s0 -> In h (queue s0) -> e_live h = true ->
+  exists n k T, ev_look (pw_ev (world s0)) n = Some (k, T) /\ h = fentry T (nth k (ids s0) 0%nat) n.
+Proof.
+  intros P Hin Hl. destruct (lk_bwd _ _ _ _ (pi_link _ _ _ P) h Hin Hl) as [n [k [T [A [_ C]]]]].
+  exists n, k, T. split; assumption.
+Qed.
+
+Lemma pend_step_PInv (s0 : kst) h : PInv cfg ub s0 -> head (queue s0) = Some h -> e_live h = true ->
+  good ub (pw_reqs (world (pend_step tb h s0))) ->
+  PInv cfg ub (pend_step tb h s0) /\ exists n, e_elem h = EN n /\ fired_at s0 (pend_step tb h s0) n (e_time h).
+Proof.
+  intros P Hh Hl Hg.
+  pose proof (head_in _ _ Hh) as Hin.
+  destruct (head_is_fentry s0 h P Hin Hl) as [n [k [T [En Eh]]]].
+  pose proof (pi_link _ _ _ P) as L.
+  set (w := world s0) in *.
+  (* the state in which the event function runs *)
+  unfold pend_step, fire in *. rewrite Eh in *. cbn [e_time e_id e_proc e_prog e_elem e_rep fentry mk_entry trec] in *.
+  remember (nth k (ids s0) 0%nat) as i eqn:Ei.
+  set (s1 := emit (OHandler prog_fired T (clock (set_clock T (set_queue (remove_id i (queue s0)) s0))) (EN n) None)
+                  (set_clock T (set_queue (remove_id i (queue s0)) s0))) in *.
+  assert (L1 : link [n] (pw_ev w) (pw_nposted w) s1).
+  { destruct L as [A1 A2 A3 A4 A5 A6 A7]. split; cbn [queue ids nextid s1 emit set_clock set_queue]; try assumption.
+    - apply remove_id_NoDup, A2.
+    - intros x Hx. apply A3. eapply remove_id_incl; exact Hx.
+    - intros n' k' T' Hn' Hnot.
+      assert (Hne : n' <> n) by (intros ->; apply Hnot; left; reflexivity).
+      destruct (A5 n' k' T' Hn' (fun x => x)) as [Hk' Hin']. split; [exact Hk'|].
+      apply remove_id_keeps; [exact Hin'|]. cbn [e_id fentry mk_entry]. intros E.
+      assert (fentry T' (nth k' (ids s0) 0%nat) n' = fentry T i n).
+      { apply (NoDup_id_inj (queue s0)); [exact A2|exact Hin'|exact Hin|exact E]. }
+      apply Hne. unfold fentry, mk_entry in *. congruence.
+    - intros n' k' T' [<-|[]] Hn'. fold w in En. rewrite En in Hn'. assert (k' = k) by congruence. subst k'.
+      split; [exact (proj1 (A5 n k T En (fun x => x)))|].
+      intros x Hx Ex. exfalso. apply (remove_id_gone i (queue s0) A2). rewrite <- Ex. apply in_map. exact Hx.
+    - intros x Hx Hlx. pose proof (remove_id_incl _ _ _ Hx) as Hx0.
+      destruct (A7 x Hx0 Hlx) as [n' [k' [T' [A [_ C]]]]]. exists n', k', T'. split; [exact A|]. split; [|exact C].
+      intros [<-|[]]. fold w in En. rewrite En in A. assert (k' = k /\ T' = T) as [-> ->] by (split; congruence).
+      apply (remove_id_gone i (queue s0) A2). replace i with (e_id x) by (rewrite C; reflexivity). apply in_map. exact Hx. }
+  unfold run_prog in *. rewrite prog_of_pulse in *.
+  change (world s1) with w in *.
+  destruct (fired_prog cfg T (EN n) (loci s1) w) as [w' acts] eqn:EF.
+  destruct (fired_prog_spec cfg T n _ w w' acts EF) as [w1 [a1 [ns [acts0 [EFN [P1 [P2 [Nn ->]]]]]]]].
+  set (sA := set_world w' s1) in *.
+  rewrite run_actions_app in *.
+  assert (HW : world (run_actions 0 T (EN n) (probe cfg w') (run_actions 0 T (EN n) acts0 sA)) = w')
+    by (rewrite !run_actions_world; reflexivity).
+  cbn [world emit] in Hg. rewrite HW in Hg.
+  (* the requests of the two segments are among the final ones *)
+  destruct (proj1 (proj2 (proj2 (psteps_keeps _ _ _ _ _ P2)))) as [l2 Hl2]. cbn [fst pw_reqs add_log] in Hl2.
+  assert (Hg1 : good ub (pw_reqs w1)) by (rewrite Hl2 in Hg; eapply good_app; exact Hg).
+  (* first segment: the firing node gets its new event *)
+  destruct (sim_psteps cfg T (EN n) [n] (w, []) (w1, a1) P1 sA [n]) as [L2 [C2 [O2 _]]].
+  { cbn [fst snd run_actions fold_left]. eapply link_ext; [| | |exact L1]; reflexivity. }
+  { cbn. lra. }
+  { cbn [fst]. apply (good_good_lo ub), Hg1. }
+  cbn [fst snd] in L2, C2, O2.
+  assert (Hh1 : holes_after [n] [n] = []) by (cbn; destruct (Z.eq_dec n n); [reflexivity|contradiction]).
+  rewrite Hh1 in L2.
+  (* second segment *)
+  destruct (sim_psteps cfg T (EN n) ns (add_log T n w1, a1) (w', acts0) P2 sA []) as [L3 [C3 [O3 _]]].
+  { cbn [fst snd pw_ev pw_nposted add_log]. exact L2. }
+  { cbn [fst snd]. rewrite C2. cbn. lra. }
+  { cbn [fst]. apply (good_good_lo ub), Hg. }
+  cbn [fst snd] in L3, C3, O3. rewrite holes_after_nil in L3.
+  (* the probe *)
+  destruct (run_queries 0 T (EN n) (probe cfg w') (run_actions 0 T (EN n) acts0 sA) (probe_queries cfg w'))
+    as [Q1 [Q2 [Q3 [Q4 [Q5 Q6]]]]].
+  set (sF := run_actions 0 T (EN n) (probe cfg w') (run_actions 0 T (EN n) acts0 sA)) in *.
+  (* world-level facts *)
+  destruct (psteps_keeps _ _ _ _ _ P1) as [F1 [N1 [_ [_ [_ [D1 _]]]]]].
+  destruct (psteps_keeps _ _ _ _ _ P2) as [F2 [N2 [_ [_ [K2 [D2 _]]]]]].
+  cbn [fst snd pw_ftimes pw_fnodes add_log] in F1, N1, F2, N2.
+  assert (HT0 : lastT w <= T) by (apply (pi_tm _ _ _ P n k T En); intros []).
+  split.
+  - split; cbn [world emit out]; rewrite ?HW.
+    + eapply link_ext; [| | |exact L3]; cbn [queue ids nextid emit]; assumption.
+    + intros m Hm. rewrite <- ev_of_look. apply D2. cbn [fst]. rewrite ev_of_look. cbn [pw_ev add_log].
+      rewrite <- ev_of_look. apply (D1 m). cbn [fst]. rewrite ev_of_look. apply (pi_dom _ _ _ P), Hm.
+    + assert (Hl' : lastT w' = T) by (unfold lastT; rewrite F2; reflexivity). rewrite Hl'.
+      assert (T0 : tmI cfg ub T [n] (pw_ev w)).
+      { intros n' k' T' Hn' Hnot.
+        destruct (pi_tm _ _ _ P n' k' T' Hn' (fun x => x)) as [_ Hhi].
+        destruct (lk_fwd _ _ _ _ L n' k' T' Hn' (fun x => x)) as [_ Hin'].
+        pose proof (notbefore_time_le _ _ (head_min _ _ Hh _ Hin')) as Hle. rewrite Eh in Hle. cbn in Hle.
+        split; [exact Hle|]. assert (Hm : lastT w + period <= T + period) by lra. apply ub_mono in Hm. lra. }
+      pose proof (tm_psteps cfg ub ub_mono period_nonneg T [n] (w, []) (w1, a1) P1 Hg1 [n] T0) as T1.
+      rewrite Hh1 in T1. cbn [fst] in T1.
+      pose proof (tm_psteps cfg ub ub_mono period_nonneg T ns (add_log T n w1, a1) (w', acts0) P2 Hg [] T1) as T2.
+      rewrite holes_after_nil in T2. exact T2.
+    + rewrite F2, F1. cbn [desc]. split; [|exact (pi_sorted _ _ _ P)].
+      unfold lastT in HT0. fold w. destruct (pw_ftimes w); [exact I|exact HT0].
+    + rewrite F2, N2, F1, N1. cbn [length]. f_equal. exact (pi_len _ _ _ P).
+    + cbn [taps filter is_tap]. fold (taps (out sF)). rewrite Q5, O3, O2.
+      cbn [out sA set_world s1 emit taps filter is_tap set_clock set_queue]. fold (taps (out s0)).
+      rewrite (pi_taps _ _ _ P), F2, N2, F1, N1. reflexivity.
+  - exists n. split; [reflexivity|]. split; cbn [world emit out clock tl]; rewrite ?HW.
+    + rewrite F2, F1. reflexivity.
+    + rewrite N2, N1. reflexivity.
+    + rewrite Q4, C3, C2. reflexivity.
+    + reflexivity.
+    + destruct (fire_node_spec cfg T n (set_sets [] [] w) []) as [r [w2 [Tn [w3 [A1 [A2 A3]]]]]].
+      rewrite <- EFN in A3. cbn [fst] in A3.
+      exists r, Tn, (pw_nposted w3).
+      assert (Hsub : forall q, In q (pw_reqs w1) -> In q (pw_reqs w')).
+      { intros q Hq. rewrite Hl2. apply in_or_app. right. exact Hq. }
+      assert (Hw1 : pw_reqs w1 = pw_reqs w3).
+      { pose proof (f_equal fst EFN) as Ew1. cbn [fst] in Ew1. rewrite Ew1.
+        unfold fire_node, set_phase, normalise_phase, set_firing_time. cbn [fst snd]. rewrite A1. cbn [fst snd].
+        change (Qred (1 - 0)) with (Qred (1 - 0)). rewrite A2. reflexivity. }
+      split; [|split].
+      * apply Hsub. rewrite Hw1, (ask_reqs _ _ _ _ _ _ A2). right. rewrite (ask_reqs _ _ _ _ _ _ A1). left. reflexivity.
+      * apply Hsub. rewrite Hw1, (ask_reqs _ _ _ _ _ _ A2). left. reflexivity.
+      * rewrite <- ev_of_look, (K2 n Nn). cbn [fst]. rewrite ev_of_look. cbn [pw_ev add_log]. rewrite <- ev_of_look. exact A3.
+Qed.
+
+End Run.
